@@ -149,6 +149,19 @@ def NullExact (dec : Kind → Env → Decision) (v : RVec) : Prop :=
   (semD dec v).acceptsNull = false ↔
     ((nullableFlagIgnoredR v || strictOverridesTypeListR v || tdNoFallbackR v) && !v1NoneDefaultD dec v) = true
 
+/-- the sort key of dataclass / msgspec members says "has an assignment" exactly when the template
+writes one — except, for msgspec, when the template appends a default the key does not know about
+(a required nullable member, or a stripped `None` default) -/
+def msKeyMismatchR (v : RVec) : Bool :=
+  let f := fromReduced v
+  v.kind == .ms && (d7mR v || (!f.required && f.dflt.isNone && f.stripDefaultNone))
+
+def msKeyMismatch (v : Vec) : Bool := msKeyMismatchR v.reduce
+
+def SortKeyExact (dec : Kind → Env → Decision) (v : RVec) : Prop :=
+  ∀ b, sortKey v.kind (fromReduced v) = some b →
+    ((b = ((renderD dec v).asg != .none)) ↔ msKeyMismatchR v = false)
+
 /-- the must-supply families only exist for schemas that admit null -/
 def MustFamiliesNeedNull (v : RVec) : Prop :=
   (d7R v || d7mR v || v1BareR v) = false
@@ -160,6 +173,7 @@ instance (dec v) : Decidable (NoneReads dec v) := by unfold NoneReads; exact inf
 instance (dec v) : Decidable (MutableExact dec v) := by unfold MutableExact; exact inferInstance
 instance (dec v) : Decidable (DcFactory dec v) := by unfold DcFactory; exact inferInstance
 instance (dec v) : Decidable (NullExact dec v) := by unfold NullExact; exact inferInstance
+instance (dec v) : Decidable (SortKeyExact dec v) := by unfold SortKeyExact; exact inferInstance
 instance (v) : Decidable (MustFamiliesNeedNull v) := by unfold MustFamiliesNeedNull; exact inferInstance
 
 end Dcg.Model.Field
